@@ -382,9 +382,20 @@ impl AppHandlerExecute for Ics20Transfer {
             .map_err(|err| eyre_to_anyhow(err).context("failed to read upgrade info"))?
             .is_some();
 
-        let ack = match receive_tokens(&mut state, &msg.packet).await {
-            Ok(()) => TokenTransferAcknowledgement::success(),
+        // Receive into a nested state delta so that a transfer which fails half way (e.g. after
+        // the bridge deposit was emitted but before the funds could be moved) leaves no trace
+        // besides the error acknowledgement.
+        let mut receive_delta = cnidarium::StateDelta::new(&mut state);
+        let ack = match receive_tokens(&mut receive_delta, &msg.packet).await {
+            Ok(()) => {
+                let (_, events) = receive_delta.apply();
+                for event in events {
+                    state.record(event);
+                }
+                TokenTransferAcknowledgement::success()
+            }
             Err(e) => {
+                drop(receive_delta);
                 tracing::warn!(
                     error = AsRef::<dyn std::error::Error>::as_ref(&e),
                     "failed to execute ics20 transfer"
